@@ -960,6 +960,7 @@ static bool execOp(int idx, const Op& o) {
 	const std::string& op = o.op;
 	const char* name = op.c_str();
 	long r = 0;
+	int cmpOk = 1; (void) cmpOk;
 	emitCall(in, name, o.a, o.b, o.p);
 	g_rec.flush();
 	if (op == "ctor") { g_curFsm = in.storage; in.loggerOn = VH_LOG != 0 && o.p != 0; construct(in, static_cast<int>(o.a), static_cast<uint64_t>(o.b)); }
@@ -1012,11 +1013,21 @@ static bool execOp(int idx, const Op& o) {
 		std::memset(static_cast<void*>(&box), 0xC3, sizeof box);		// save() must produce the whole buffer itself
 		const FSM::Instance& cm = *in.m;
 		cm.save(box.buf);
+		// the buffer's own comparison operators against the previously saved buffer must agree with the bytes
+		{
+			static FSM::Instance::SerialBuffer prevBuf; static bool havePrev = false;
+			if (havePrev) {
+				const bool same = std::memcmp(prevBuf.data(), box.buf.data(), sizeof(box.buf.data())) == 0;
+				if ((prevBuf == box.buf) != same || (prevBuf != box.buf) == same || (box.buf == prevBuf) != same || (box.buf != prevBuf) == same) cmpOk = 0;
+			}
+			prevBuf = box.buf; havePrev = true;
+		}
 		r = 0;
 		for (size_t n = 0; n < sizeof(box.buf.data()); ++n) r |= static_cast<long>(box.buf.data()[n]) << (8 * n);
-		for (int n = 0; n < 8; ++n) if (box.pre[n] != 0xC3 || box.post[n] != 0xC3) r = -2;	// wrote outside the buffer
-		static_assert(sizeof(FSM::Instance::SerialBuffer) <= 2, "serial buffer larger than expected");
 		g_serReg = r;
+		for (int n = 0; n < 8; ++n) if (box.pre[n] != 0xC3 || box.post[n] != 0xC3) r = -2;	// wrote outside the buffer
+		if (!cmpOk && r >= 0) r = -3;		// SerialBuffer::operator== / != disagree with the bytes
+		static_assert(sizeof(FSM::Instance::SerialBuffer) <= 2, "serial buffer larger than expected");
 	}
 	else if (op == "load") {
 		struct { unsigned char pre[8]; FSM::Instance::SerialBuffer buf; unsigned char post[8]; } box;
